@@ -314,7 +314,7 @@ def _collect(dex, P):
         P.method(*m)
 
 
-def build(dex, map_order=None, fix_header=True, return_layout=False):
+def build(dex, map_order=None, fix_header=True, return_layout=False, string_data_last=False):
     """-> bytes.  map_order: optional permutation (list of indices) applied to the map entries."""
     P = Pools()
     layout = {}
@@ -479,6 +479,8 @@ def build(dex, map_order=None, fix_header=True, return_layout=False):
                 cd_index[ci] = S[T_CLASS_DATA].add(class_data_bytes(c, rec))
         for typ in (T_CLASS_DATA, T_STRING_DATA, T_DEBUG_INFO, T_ANN_ITEM, T_ANN_SET, T_ANN_DIR, T_ENC_ARRAY):
             sec = S[typ]
+            if typ == T_STRING_DATA and string_data_last:
+                continue
             for i, it in enumerate(sec.items):
                 pos = (pos + sec.align - 1) // sec.align * sec.align
                 if i == 0:
@@ -487,6 +489,15 @@ def build(dex, map_order=None, fix_header=True, return_layout=False):
                 pos += size_of(typ, it, pos)
         pos = (pos + 3) // 4 * 4
         map_off = pos
+        if string_data_last:
+            # the string data section is placed AFTER the map list, so that the last string ends exactly at end of file
+            n_entries = 2 + sum(1 for n in (n_s, n_t, n_p, n_f, n_m, n_c) if n) + sum(1 for t in order if S[t].items)
+            pos = map_off + 4 + 12 * n_entries
+            for i, it in enumerate(S[T_STRING_DATA].items):
+                if i == 0:
+                    sec_off[T_STRING_DATA] = pos
+                item_off[(T_STRING_DATA, i)] = pos
+                pos += len(it)
 
         # ---- emit ---------------------------------------------------------------------
         out = bytearray(b"\x00" * 0x70)
@@ -518,6 +529,8 @@ def build(dex, map_order=None, fix_header=True, return_layout=False):
                 code_dbg[cidx] = dbg
         for typ in order:
             sec = S[typ]
+            if typ == T_STRING_DATA and string_data_last:
+                continue
             for i, it in enumerate(sec.items):
                 o = item_off[(typ, i)]
                 out += b"\x00" * (o - len(out))
@@ -549,6 +562,10 @@ def build(dex, map_order=None, fix_header=True, return_layout=False):
         out += struct.pack("<I", len(entries))
         for typ, n, o in entries:
             out += struct.pack("<HHII", typ, 0, n, o)
+        if string_data_last:
+            for i, it in enumerate(S[T_STRING_DATA].items):
+                assert len(out) == item_off[(T_STRING_DATA, i)]
+                out += it
         file_size = len(out)
         hdr = struct.pack("<8sI20sIIIIIIIIIIIIIIIIIIII", b"dex\n" + dex.version + b"\x00", 0, b"\x00" * 20, file_size, 0x70,
                           0x12345678, 0, 0, map_off, n_s, o_s if n_s else 0, n_t, o_t if n_t else 0, n_p, o_p if n_p else 0,
